@@ -153,6 +153,21 @@ func Fields(t reflect.Type) []FieldInfo {
 	return out
 }
 
+// F32Bits returns the bit pattern of a float32 value as it lies in memory. Going through
+// reflect's Float() would widen it to float64 and back, which turns a signalling NaN into a quiet
+// one: the bits are part of the wire format.
+func F32Bits(v reflect.Value) uint32 {
+	if !v.CanAddr() {
+		nv := reflect.New(v.Type()).Elem()
+		nv.Set(v)
+		v = nv
+	}
+	return *(*uint32)(v.Addr().UnsafePointer())
+}
+
+// SetF32Bits stores a bit pattern into an addressable float32 value
+func SetF32Bits(v reflect.Value, bits uint32) { *(*uint32)(v.Addr().UnsafePointer()) = bits }
+
 func isIntKind(k reflect.Kind) bool  { return k >= reflect.Int && k <= reflect.Int64 }
 func isUintKind(k reflect.Kind) bool { return k >= reflect.Uint && k <= reflect.Uint64 }
 
@@ -341,7 +356,7 @@ func (c Cfg) Body(b []byte, v reflect.Value, opt string) []byte {
 	case isUintKind(k):
 		return uvar(b, v.Uint())
 	case k == reflect.Float32:
-		return binary.LittleEndian.AppendUint32(b, math.Float32bits(float32(v.Float())))
+		return binary.LittleEndian.AppendUint32(b, F32Bits(v))
 	case k == reflect.Float64:
 		return binary.LittleEndian.AppendUint64(b, math.Float64bits(v.Float()))
 	case k == reflect.String:
